@@ -99,4 +99,85 @@ theorem hasB_coll_eq {a : Attr} {d : Side} (ha : sch.side a = some d) (hd : d.is
 
 end prim
 
+/-! ## Result monad -/
+
+theorem Res.bind_ok {r : Res} {f : St → Res} {st' : St} (h : r.bind f = .ok st') : ∃ st1, r = .ok st1 ∧ f st1 = .ok st' := by
+  cases r with
+  | ok st1 => exact ⟨st1, rfl, h⟩
+  | err e st1 => simp [Res.bind] at h
+
+@[simp] theorem iter_nil {α : Type} (f : α → St → Res) (st : St) : iter f [] st = .ok st := rfl
+@[simp] theorem iter_cons {α : Type} (f : α → St → Res) (x : α) (xs : List α) (st : St) :
+    iter f (x :: xs) st = (f x st).bind (iter f xs) := rfl
+
+theorem iter_cons_ok {α : Type} {f : α → St → Res} {x : α} {xs : List α} {st st' : St}
+    (h : iter f (x :: xs) st = .ok st') : ∃ st1, f x st = .ok st1 ∧ iter f xs st1 = .ok st' :=
+  Res.bind_ok h
+
+theorem iter_single_ok {α : Type} {f : α → St → Res} {x : α} {st st' : St}
+    (h : iter f [x] st = .ok st') : f x st = .ok st' := by
+  obtain ⟨st1, h1, h2⟩ := iter_cons_ok h
+  simp at h2; cases h2; exact h1
+
+@[simp] theorem St.setStore_store (st : St) (s : Store) : (st.setStore s).store = s := rfl
+@[simp] theorem St.log_store (st : St) (u : Undo) : (st.log u).store = st.store := rfl
+
+/-! ## Exact effect of the small procedures on the store (successful runs) -/
+
+theorem reverseAdd1_ok {c : Attr} {item obj : ObjId} {st st' : St} (h : reverseAdd1 c item obj st = .ok st') :
+    st.store.mem obj c item = false ∧ st'.store = st.store.setMem obj c item true := by
+  unfold reverseAdd1 at h
+  split at h
+  · cases h
+  · cases h; simp_all
+
+theorem reverseRemove1_ok {c : Attr} {item obj : ObjId} {st st' : St} (h : reverseRemove1 c item obj st = .ok st') :
+    st.store.mem obj c item = true ∧ st'.store = st.store.setMem obj c item false := by
+  unfold reverseRemove1 at h
+  split at h
+  · cases h; simp_all
+  · cases h
+
+/-- store after `Attribute.__set__(o, None)` as a reverse call -/
+def clearRevStore (sch : Schema) (s : Store) (o : ObjId) (a : Attr) : Store :=
+  match s.ref o a with
+  | none => s
+  | some u => if sch.isCollAttr (sch.rev a) then (s.setRef o a none).setMem u (sch.rev a) o false else s.setRef o a none
+
+theorem attrClearRev_ok {sch : Schema} {o : ObjId} {a : Attr} {st st' : St} (h : attrClearRev sch o a st = .ok st') :
+    st'.store = clearRevStore sch st.store o a ∧ st.store.alive o = true ∧
+    (∃ d rd, sch.side a = some d ∧ sch.side (sch.rev a) = some rd ∧ d.required = false ∧
+      (∀ u, st.store.ref o a = some u → rd.isColl = true → st.store.mem u (sch.rev a) o = true)) := by
+  unfold attrClearRev at h
+  split at h
+  · cases h
+  · rename_i hal
+    split at h
+    · rename_i d rd hd hrd
+      split at h
+      · cases h
+      · rename_i hreq
+        have hal' : st.store.alive o = true := by simpa using hal
+        split at h
+        · rename_i hnone
+          cases h
+          refine ⟨by simp [clearRevStore, hnone], hal', d, rd, hd, hrd, by simpa using hreq, ?_⟩
+          intro u hu; simp [hnone] at hu
+        · rename_i u hu
+          simp only at h
+          split at h
+          · rename_i hcoll
+            have h1 := iter_single_ok h
+            obtain ⟨hm, hs⟩ := reverseRemove1_ok h1
+            simp at hm hs
+            refine ⟨?_, hal', d, rd, hd, hrd, by simpa using hreq, ?_⟩
+            · simp [clearRevStore, hu, Schema.isCollAttr, hrd, hcoll, hs]
+            · intro u' hu' _; rw [hu] at hu'; cases hu'; simpa [Store.setRef] using hm
+          · rename_i hcoll
+            cases h
+            refine ⟨?_, hal', d, rd, hd, hrd, by simpa using hreq, ?_⟩
+            · simp [clearRevStore, hu, Schema.isCollAttr, hrd, hcoll]
+            · intro u' _ hc; simp [hc] at hcoll
+    · cases h
+
 end PonyVerif.Model.Rel
